@@ -78,6 +78,25 @@ theorem ioworker_progress (ops : List Op) (k : Nat) (hc : (run ops).closed = fal
     unfold St.took St.afterWrite
     split <;> simp [St.offer]
 
+/-- **ioworker_history**: the stream claims over TIME, not only per state.  (i) What the socket has accepted is never
+retracted or rewritten: after any continuation `b` of any history `a` the accepted bytes extend those accepted before.
+(ii) One operation changes the concatenation of everything queued by exactly the message handed to it — appended at the
+end, once — except the one `send_fast` whose own direct write met the fatal error, which is counted in `dropped` and
+leaves the queue as it was.  With `ioworker_stream` at both ends: bytes leave in the order the messages were handed in. -/
+theorem ioworker_history (a b : List Op) (op : Op) :
+    (∃ t, (run (a ++ b)).accepted = (run a).accepted ++ t) ∧
+    (((run (a ++ [op])).queued = (run a).queued ++ op.payload ∧ (run (a ++ [op])).dropped = (run a).dropped) ∨
+     ((∃ d o, op = .sendFast d o) ∧ (run (a ++ [op])).queued = (run a).queued ∧
+        (run (a ++ [op])).dropped = (run a).dropped + 1)) := by
+  refine ⟨?_, ?_⟩
+  · simp only [run, List.foldl_append]; exact foldl_accepted_mono b _
+  · rw [run_snoc]; exact (step_hist (run a) op).2
+example : (run ([.send [1,2,3], .pump (.accept 2)] ++ [.sendFast [4] .again, .pump (.accept 9)])).accepted
+    = (run [.send [1,2,3], .pump (.accept 2)]).accepted ++ [3,4] := by decide
+/-- the dropped branch is reachable: a `send_fast` on an idle live worker whose direct write fails -/
+example : (run ([.send [1], .pump (.accept 1)] ++ [.sendFast [7,8] .fatal])).dropped = 1 ∧
+    (run ([.send [1], .pump (.accept 1)] ++ [.sendFast [7,8] .fatal])).queued = [1] := by decide
+
 /-- the code as it stands: a `shutdown(send)` requested when nothing is pending is never carried out (no later write
     finds `_shutdown_send` with a buffer it has just drained); the theorem above is therefore about requests that wait -/
 example : (run [.send [1], .pump (.accept 1), .shutdown, .pump (.accept 1), .pump (.accept 1)]).shutLog = [] := by decide
